@@ -1,7 +1,7 @@
 (* C15 -- property theorems only.  Each is closed by `exact <lemma>`; axioms are
    printed by the audit step of bin/check (Print Assumptions per theorem). *)
 From Coq Require Import NArith ZArith List Bool.
-From SV Require Import C15.Utf8 C15.Float C15.Quote C15.Value C15.ProofsQuote C15.ProofsScan C15.ProofsHeap C15.ProofsValue C15.Spec C15.ProofsSpec.
+From SV Require Import C15.Utf8 C15.Float C15.Quote C15.Value C15.ProofsQuote C15.ProofsScan C15.ProofsHeap C15.ProofsValue C15.Spec C15.ProofsSpec C15.Bounded.
 Import ListNotations.
 Open Scope N_scope.
 
@@ -63,6 +63,27 @@ Theorem quote_denotes : forall (s : list N) (b : bool) rest,
   spec_literal (quote is_print s b ++ rest) = Some (b, s, rest).
 Proof. exact (quote_denotes_lemma is_print is_print_not_newline). Qed.
 End Quoting.
+
+(* FULL STATEMENT: for every well-formed UTF-8 source text, the scanner +
+   unquote (two passes, quote tracking, raw / bytes / triple-quoted forms, all
+   escapes, all error cases) read the same literal with the same value and the
+   same remaining input as the specification's single-pass reader, and reject
+   exactly what it rejects.
+   PROVED (`_bounded`): the statement for EVERY source text of length <= 6 over
+   the 14 characters that matter to literal syntax (both quotes, backslash, r, b,
+   x, the digits 0 4 7, a, LF, CR and the two bytes of a non-ASCII character):
+   8,108,731 texts enumerated completely inside Coq (all_upto is proved sound).
+   This covers every interaction of prefixes, delimiters (incl. triple quotes),
+   backslash skipping, line endings, simple / octal / hex escapes and their
+   error cases that fits in six characters.  MISSING: longer texts and other
+   characters (the 4- and 8-digit Unicode escapes in particular) are covered
+   only by quote_denotes + scan_quote_* above (for printed text) and by the
+   correspondence check on generated literals (three-way: real scanner, model,
+   specification). *)
+Theorem scan_agrees_with_spec_bounded : forall src,
+  (length src <= bound)%nat -> Forall (fun c => In c alphabet) src ->
+  valid_utf8 src = true -> model_scan src = spec_scan src.
+Proof. exact scan_agrees_with_spec_bounded_lemma. Qed.
 
 (* FULL STATEMENT (property text): for every value v built from None, booleans,
    ints, finite floats, strings, bytes, lists, tuples and dicts, nested
@@ -192,3 +213,8 @@ Proof. split; reflexivity. Qed.
 Example decode_rejects : utf8_decode [0xC0; 0x80] = (0xFFFD, 1%nat) /\ utf8_decode [0xED; 0xA0; 0x80] = (0xFFFD, 1%nat)
   /\ utf8_decode [0xF4; 0x90; 0x80; 0x80] = (0xFFFD, 1%nat) /\ utf8_decode [0xE0; 0x9F; 0xBF] = (0xFFFD, 1%nat).
 Proof. repeat split. Qed.
+(* premises of the bounded theorem: a raw bytes literal with an escaped quote, followed by a quote *)
+Example bounded_premises :
+  (length [114; 98; 39; 92; 39; 39] <= bound)%nat /\ Forall (fun c => In c alphabet) [114; 98; 39; 92; 39; 39]
+  /\ valid_utf8 [114; 98; 39; 92; 39; 39] = true /\ model_scan [114; 98; 39; 92; 39; 39] = SOk true [92; 39] [].
+Proof. split; [cbn; auto|]. split; [repeat (constructor; [cbn; tauto|])|]; [constructor|]. split; reflexivity. Qed.
